@@ -178,14 +178,19 @@ def write_evidence(pid, tier, seed, coverage, assumptions, wall, violations, ext
 
 
 # ------------------------------------------------------------------------------------------------
-def check_rc(pid, cfg, tier, seed):
-    t0 = time.time()
-    bdir = build("rel", [cfg["exe"]] + cfg.get("extra_targets", []))
-    exe = os.path.join(bdir, cfg["exe"])
+def extra_builds(cfg):
+    """tools / sanitizer executables a check runs as child processes; their paths reach the harness through the environment"""
     for fl, targets, envmap in cfg.get("extra_builds", []):
         xb = build(fl, targets)
         for k, rel in envmap.items():
             os.environ[k] = os.path.join(xb, rel)
+
+
+def check_rc(pid, cfg, tier, seed):
+    t0 = time.time()
+    bdir = build("rel", [cfg["exe"]] + cfg.get("extra_targets", []))
+    exe = os.path.join(bdir, cfg["exe"])
+    extra_builds(cfg)
     mult, procs = cfg[tier]
     procs = min(procs, NCPU)
     work = os.path.join(WORK, "%s-%s-%d" % (pid, tier, os.getpid()))
@@ -383,7 +388,14 @@ def cmd_replay(path):
         return 1 if failed else 0
     if cfg["engine"] == "rc":
         bdir = build("rel", [cfg["exe"]])
-        st, sig, known, out = run_replay(os.path.join(bdir, cfg["exe"]), path)
+        extra_builds(cfg)
+        tmpbase = "/dev/shm/wbv-%d" % os.getpid() if os.path.isdir("/dev/shm") else os.path.join(WORK, "tmp-%d" % os.getpid())
+        os.makedirs(tmpbase, exist_ok=True)
+        os.environ["VERIF_TMP"] = tmpbase
+        try:
+            st, sig, known, out = run_replay(os.path.join(bdir, cfg["exe"]), os.path.abspath(path))
+        finally:
+            shutil.rmtree(tmpbase, ignore_errors=True)
         print(out.strip())
         return 1 if st == "fail" else (0 if st == "pass" else 2)
     mod = __import__(cfg["module"])
